@@ -68,6 +68,10 @@ pub struct Case {
     /// explicit schedule (preference list of thread ids); overrides strategy/sched_seed
     #[serde(default)]
     pub schedule: Option<Vec<usize>>,
+    /// every put of a key, whichever task issues it, writes the SAME bytes (several tasks caching the same
+    /// object at once); otherwise every put writes bytes of its own
+    #[serde(default)]
+    pub same_value: bool,
 }
 
 #[derive(Clone, Debug, PartialEq)]
@@ -304,7 +308,7 @@ impl Scenario for Conc {
         "exploration"
     }
     fn rule(&self) -> &'static str {
-        "Per run one shared MemoryCache or DiskCache, 2-3 tasks x 1-3 operations from {get, contains, put, put_with_ttl(0 = already expired), put_with_ttl(24h), remove, clear(memory only)} on 1-2 keys (every written value unique), optionally after a sequential setup that leaves an expired entry behind. Each task is a real OS thread; exactly one runs at a time and at every sched_point hook (between consecutive shared-state accesses: map get/remove/insert, counter updates, temp-file open/write/fsync/rename, index update) a seeded chooser (uniform random or PCT with 1-3 priority change points) decides who runs next. Invocations and responses are stamped with a global sequence number; a Wing-Gong/Lowe search looks for a linearization accepted by the sequential cache specification; any Err is a violation; at quiescence size()/usage must equal what a probe of every key retrieves. A third arm (tiny max_entries) exercises the eviction loops and checks values, errors and accounting only. A fourth arm shares one DynamicContainer (feature verif-hooks: its RwLocks become try-lock + yield-to-scheduler, so threads can be preempted inside save_all while holding the index lock): 2-3 tasks x 1-2 operations from {write, read, query, remove} on 1-2 encoding keys, preempted between archive write / index add / save and between create / write / fsync / rename of every index temp file; oracle: no panic, no deadlock (all unfinished tasks waiting for a lock), no error for an operation that did not overlap a mutator of the same key, reads return exactly the content written, the history extended by a sequential query+read of every key at quiescence is linearizable against a set specification, and a fresh container opened on the same directory answers exactly as the live one. Non-trivial = >= 2 state-changing ops and >= 1 context switch at a hook site; distinct = hash of (case, schedule, results)."
+        "(One run in six: all puts of a key, whichever task issues them, write IDENTICAL bytes; otherwise every put writes bytes of its own.) Per run one shared MemoryCache or DiskCache, 2-3 tasks x 1-3 operations from {get, contains, put, put_with_ttl(0 = already expired), put_with_ttl(24h), remove, clear(memory only)} on 1-2 keys (every written value unique), optionally after a sequential setup that leaves an expired entry behind. Each task is a real OS thread; exactly one runs at a time and at every sched_point hook (between consecutive shared-state accesses: map get/remove/insert, counter updates, temp-file open/write/fsync/rename, index update) a seeded chooser (uniform random or PCT with 1-3 priority change points) decides who runs next. Invocations and responses are stamped with a global sequence number; a Wing-Gong/Lowe search looks for a linearization accepted by the sequential cache specification; any Err is a violation; at quiescence size()/usage must equal what a probe of every key retrieves. A third arm (tiny max_entries) exercises the eviction loops and checks values, errors and accounting only. A fourth arm shares one DynamicContainer (feature verif-hooks: its RwLocks become try-lock + yield-to-scheduler, so threads can be preempted inside save_all while holding the index lock): 2-3 tasks x 1-2 operations from {write, read, query, remove} on 1-2 encoding keys, preempted between archive write / index add / save and between create / write / fsync / rename of every index temp file; oracle: no panic, no deadlock (all unfinished tasks waiting for a lock), no error for an operation that did not overlap a mutator of the same key, reads return exactly the content written, the history extended by a sequential query+read of every key at quiescence is linearizable against a set specification, and a fresh container opened on the same directory answers exactly as the live one. Non-trivial = >= 2 state-changing ops and >= 1 context switch at a hook site; distinct = hash of (case, schedule, results)."
     }
     fn assumptions(&self) -> Vec<&'static str> {
         vec![
@@ -376,7 +380,10 @@ impl Scenario for Conc {
             tasks.push((0..n).map(|_| gen_op(rng, disk)).collect());
         }
         let strategy = (*rng.pick(&["random", "random", "pct1", "pct2", "pct3"])).to_string();
-        Case { sut: sut.to_string(), nkeys, setup, tasks, strategy, sched_seed: rng.next_u64(), schedule: None }
+        let sched_seed = rng.next_u64();
+        // drawn last: one run in six lets all puts of a key carry identical bytes
+        let same_value = rng.chance(1, 6);
+        Case { sut: sut.to_string(), nkeys, setup, tasks, strategy, sched_seed, schedule: None, same_value }
     }
 
     fn execute(&self, case: &Case, ctx: &mut Ctx) -> Option<Violation> {
@@ -424,6 +431,9 @@ impl Scenario for Conc {
         }
         if case.nkeys > 1 && case.tasks.iter().flatten().chain(case.setup.iter()).all(|o| o.key().is_none_or(|k| k == 0)) {
             out.push(Case { nkeys: 1, ..case.clone() });
+        }
+        if case.same_value {
+            out.push(Case { same_value: false, ..case.clone() });
         }
         out
     }
@@ -500,9 +510,13 @@ fn run(case: &Case, ctx: &mut Ctx) -> Option<Violation> {
         let c = sut.c();
         let keys = keys.clone();
         let hist = history.clone();
+        let same_value = case.same_value;
         tasks.push(Box::new(move |inner: &Arc<sched::Inner>| {
             for (j, op) in ops.iter().enumerate() {
-                let id = ((tid as u64 + 1) << 8) | (j as u64 + 1);
+                let id = match (same_value, op.key()) {
+                    (true, Some(k)) if matches!(op, COp::Put(_) | COp::PutLong(_) | COp::PutTtl0(_)) => 0x5A3E_0000 + k as u64,
+                    _ => ((tid as u64 + 1) << 8) | (j as u64 + 1),
+                };
                 let inv = inner.stamp();
                 let res = do_op(c.as_ref(), &keys, op, id);
                 let ret = inner.stamp();
